@@ -1494,7 +1494,7 @@ func (a *Association) gatherOutboundFastRetransmissionPackets( //nolint:gocognit
 			break // end of pending data
 		}
 
-		if chunkPayload.acked || chunkPayload.abandoned() {
+		if chunkPayload.acked || chunkPayload.givenUp() {
 			continue
 		}
 
@@ -2989,7 +2989,7 @@ func (a *Association) processFastRetransmission( //nolint:gocognit
 			if !ok {
 				return fmt.Errorf("%w: %v", ErrTSNRequestNotExist, tsn)
 			}
-			if !c.acked && !c.abandoned() && c.missIndicator < 3 {
+			if !c.acked && !c.givenUp() && c.missIndicator < 3 {
 				c.missIndicator++
 				if c.missIndicator == 3 {
 					if a.tlrActive {
@@ -4742,7 +4742,7 @@ func (a *Association) onRackAfterSACK( // nolint:gocognit,cyclop,gocyclo
 			next := chunk.rackNext // save in case we remove c
 
 			// but clean up if they exist.
-			if chunk.acked || chunk.abandoned() {
+			if chunk.acked || chunk.givenUp() {
 				a.rackRemove(chunk)
 				chunk = next
 
@@ -4864,7 +4864,7 @@ func (a *Association) onRackTimeoutLocked() { //nolint:cyclop
 	for chunk := a.rackHead; chunk != nil; {
 		next := chunk.rackNext
 
-		if chunk.acked || chunk.abandoned() {
+		if chunk.acked || chunk.givenUp() {
 			a.rackRemove(chunk)
 			chunk = next
 
@@ -4940,7 +4940,7 @@ func (a *Association) onPTOTimerLocked() {
 			break
 		}
 
-		if c.acked || c.abandoned() {
+		if c.acked || c.givenUp() {
 			continue
 		}
 
